@@ -504,6 +504,14 @@ class Check:
         rc = 0
         replay_paths = []
         seen_keys = set()
+        if self.violations:
+            # which tree was judged? (a report on a tree that is not the committed one must be recognisable from the log alone)
+            try:
+                head = subprocess.run(["git", "-C", REPO, "rev-parse", "--short", "HEAD"], capture_output=True, text=True).stdout.strip()
+                dirty = subprocess.run(["git", "-C", REPO, "status", "--short", "--untracked-files=no"], capture_output=True, text=True).stdout.strip().splitlines()
+                print("TREE-UNDER-TEST repo=%s head=%s sources=%s include=%s uncommitted_changes=%s" % (REPO, head or "?", repo_hash("tbb"), repo_hash("include"), dirty[:8] if dirty else "none"))
+            except Exception as e:
+                print("TREE-UNDER-TEST repo=%s (git state unavailable: %s)" % (REPO, e))
         for i, v in enumerate(self.violations):
             if v["key"] in seen_keys and len(replay_paths) >= 10:
                 continue
